@@ -3,6 +3,7 @@ CONSTANTS
   Scale = 2
   TMax = 8
 INVARIANT LawSourceUnique
+INVARIANT LawIntervals
 INVARIANT LawSourceTotal
 INVARIANT LawHorizon
 INVARIANT LawGap
